@@ -206,6 +206,29 @@ def vtime_overlay(work, rel_files):
     return m
 
 
+def vrewrite_bin():
+    """the AST rewriter (harness/tools/vrewrite) is built on demand, offline, stdlib only"""
+    out = os.path.join(VERIF, ".work", "vrewrite")
+    src = os.path.join(HARNESS, "tools", "vrewrite")
+    if not os.path.exists(out) or os.path.getmtime(out) < os.path.getmtime(os.path.join(src, "main.go")):
+        os.makedirs(os.path.dirname(out), exist_ok=True)
+        subprocess.check_call(["go", "build", "-o", out, "."], cwd=src, env=GOENV)
+    return out
+
+
+def yield_overlay(work, rel, funcs):
+    """the `-yield` rewrite pass (DESIGN.md E5) on one working-tree file"""
+    p = work.path("yield_" + rel.replace("/", "_"))
+    with open(p, "w") as f:
+        subprocess.check_call([vrewrite_bin(), "-file", os.path.join(REPO, rel), "-funcs", ",".join(funcs)], stdout=f)
+    return {rel: p}
+
+
+def skeleton(rel, funcs):
+    out = subprocess.check_output([vrewrite_bin(), "-file", os.path.join(REPO, rel), "-funcs", ",".join(funcs), "-skeleton"], text=True)
+    return dict(l.split(": ", 1) if ": " in l else (l.rstrip(":"), "") for l in out.strip().split("\n") if l)
+
+
 def go_test(work, overlay, pkg, run, env, timeout=3000, tags=None, race=False, extra=None):
     cmd = ["go", "test", "-vet=off", "-count=1", "-overlay", overlay, "-run", run,
            "-timeout", "%ds" % timeout]
